@@ -1616,6 +1616,22 @@ func (x *Exec) resolveModEntry(env *SpecEnv, e Expr) []modTarget {
 			b := x.slBase(v.T)
 			return []modTarget{{arr: x.elemsArr(sl.Elem()), sort: SArr(SInt, SArr(x.idxSort(), x.sortOf(sl.Elem()))), loc: &b, elems: true}}
 		}
+		if ee.Fn == "mapelems" {
+			// mapelems(m): the contents (keys, values, size) of the Go map m
+			v := x.spec(env, ee.Args[0])
+			m, ok := v.Ty.Underlying().(*types.Map)
+			if !ok {
+				unsupported("mapelems() of non-map")
+			}
+			dom, vals, card := x.mapNames(m)
+			ks, vs := x.sortOf(m.Key()), x.sortOf(m.Elem())
+			b := v.T
+			return []modTarget{
+				{arr: dom, sort: SArr(SInt, SArr(ks, SBool)), loc: &b},
+				{arr: vals, sort: SArr(SInt, SArr(ks, vs)), loc: &b},
+				{arr: card, sort: SArr(SInt, x.idxSort()), loc: &b},
+			}
+		}
 		if ee.Fn == "calls" {
 			// calls(f): the ghost call counter and history of the function value f
 			fv := x.spec(env, ee.Args[0])
